@@ -37,6 +37,53 @@ def _content(r: random.Random, tag: str) -> str:
     return ("%s=" % tag) * 12000 + "\n"         # > 64 KiB
 
 
+SIDE_FORMS = ["file-ref", "file-copy", "file-link", "stdout", "file-output", "dir-ref-on-cmdline",
+              "dir-ref-on-cmdline-with-path-suffix", "dir-ref-off-cmdline", "dir-copy-off-cmdline",
+              "dir-link-off-cmdline"]
+
+
+def side_reference(prod: str, form: str):
+    """(reference, argument tokens) for a consumer that references `prod` through exactly one reference of `form`."""
+    if form == "file-ref":
+        return {"producer": prod, "path": "out.txt", "method": "ref"}, [["ref", 0]]
+    if form == "file-copy":
+        return {"producer": prod, "path": "out.txt", "method": "copy"}, []
+    if form == "file-link":
+        return {"producer": prod, "path": "out.txt", "method": "link"}, []
+    if form == "stdout":
+        return {"producer": prod, "path": None, "method": "output"}, [["ref", 0]]
+    if form == "file-output":
+        return {"producer": prod, "path": "out.txt", "method": "output"}, [["ref", 0]]
+    if form == "dir-ref-on-cmdline":
+        return {"producer": prod, "path": None, "method": "ref"}, [["ref", 0]]
+    if form == "dir-ref-on-cmdline-with-path-suffix":
+        return {"producer": prod, "path": None, "method": "ref"}, [["ref", 0, "/out.txt"]]
+    if form == "dir-ref-off-cmdline":
+        return {"producer": prod, "path": None, "method": "ref"}, []
+    if form == "dir-copy-off-cmdline":
+        return {"producer": prod, "path": None, "method": "copy"}, []
+    if form == "dir-link-off-cmdline":
+        return {"producer": prod, "path": None, "method": "link"}, []
+    raise ValueError(form)
+
+
+def pair_forms(spec: Dict[str, Any]) -> Dict[Any, set]:
+    """{(consumer, producer): {forms of the consumer's references to that producer}} with form in
+    'file' (a file of the producer incl. its stdout), 'dir-on-cmdline', 'dir-off-cmdline' (bare producer reference)."""
+    out: Dict[Any, set] = {}
+    for c in spec["comps"]:
+        on_cmdline = {a[1] for a in c["args"] if a[0] == "ref"}
+        for i, rf in enumerate(c["refs"]):
+            if rf["producer"] is None:
+                continue
+            if rf["path"] or rf["method"] == "output":
+                form = "file"
+            else:
+                form = "dir-on-cmdline" if i in on_cmdline else "dir-off-cmdline"
+            out.setdefault((c["name"], rf["producer"]), set()).add(form)
+    return out
+
+
 def gen_spec(r: random.Random) -> Dict[str, Any]:
     L = r.choice([1, 1, 2, 2, 3, 4])
     names = r.sample(NAMES, L + 1)
@@ -53,12 +100,21 @@ def gen_spec(r: random.Random) -> Dict[str, Any]:
     for k, pn in enumerate(chain):
         refs, args = [], [["lit", r.choice(LITS)]]
         if k > 0:
-            m = r.choice(["ref", "output", "copy", "ref"])
-            refs.append({"producer": chain[k - 1], "path": None if m == "output" else "out.txt", "method": m})
-            if m != "copy":
+            m = r.choice(["ref", "output", "copy", "ref", "dir", "link"])
+            if m == "dir":    # bare <producer>:ref named on the command line
+                refs.append({"producer": chain[k - 1], "path": None, "method": "ref"})
+            else:
+                refs.append({"producer": chain[k - 1], "path": None if m == "output" else "out.txt", "method": m})
+            if m not in ("copy", "link"):
                 args.append(["ref", 0])
         if r.random() < 0.5:
             refs.append({"producer": None, "path": r.choice(dnames), "method": "ref"})
+            args.append(["ref", len(refs) - 1])
+        if k == 0 or r.random() < 0.7:
+            # an input file that ONLY this producer consumes (removing it makes exactly this component unhashable)
+            priv = "data/only-%s.dat" % "abcd"[k]
+            data[priv] = _content(r, "P%d" % k)
+            refs.append({"producer": None, "path": priv, "method": "ref"})
             args.append(["ref", len(refs) - 1])
         if r.random() < 0.4:
             args.append(["var", "gv"])
@@ -105,7 +161,19 @@ def gen_spec(r: random.Random) -> Dict[str, Any]:
     comps.append({"name": tname, "stage": stage, "exe": r.choice(EXES), "args": head + tail, "refs": refs,
                   "image": image})
     outputs[tname] = {"out.txt": "OT", "out.stdout": "ST"}
-    spec = {"comps": comps, "target": tname, "chain": chain, "variables": variables, "data": data,
+    # ---- side consumers: leaves that reference ONE chain member through ONE reference of a given form, so that every
+    #      reference form is exercised at every distance from an unhashable / changed upstream component
+    sides = []
+    free = [n for n in NAMES if n not in names]
+    for sn in r.sample(free, r.choice([1, 2, 2])):
+        prod = r.choice(chain)
+        form = r.choice(SIDE_FORMS)
+        rf, sargs = side_reference(prod, form)
+        comps.append({"name": sn, "stage": stage, "exe": r.choice(EXES), "args": [["lit", r.choice(LITS)]] + sargs,
+                      "refs": [rf], "image": None, "side_form": form})
+        outputs[sn] = {"out.txt": "side", "out.stdout": "side"}
+        sides.append(sn)
+    spec = {"comps": comps, "target": tname, "chain": chain, "sides": sides, "variables": variables, "data": data,
             "outputs": outputs, "where": "A", "mtime": 1.5e9, "has_dir_ref": has_dir_ref}
     spec["klass"] = "L%d:dir%d:img%s:argdata%d" % (
         L, int(has_dir_ref), (image or {}).get("backend", "-"), len(arg_data))
@@ -133,7 +201,7 @@ def render(spec: Dict[str, Any]) -> Dict[str, Any]:
             if t[0] == "lit":
                 toks.append(t[1])
             elif t[0] == "ref":
-                toks.append(rs[t[1]])
+                toks.append(rs[t[1]] + (t[2] if len(t) > 2 else ""))
             else:
                 toks.append("%%(%s)s" % t[1])
         d: Dict[str, Any] = {"name": c["name"], "stage": c["stage"],
@@ -321,6 +389,44 @@ def edits(spec: Dict[str, Any], r: random.Random) -> List[Dict[str, Any]]:
     s["comps"].append(tw)
     s["outputs"][tw["name"]] = {"out.txt": "tw", "out.stdout": "tw"}
     add("T1-twin-in-same-experiment", s, EQUAL, EQUAL, tw["name"], twin=tw["name"])
+    # identity: the same definition materialised once more (elsewhere, later)
+    add("B0-identity", copy.deepcopy(spec), EQUAL, EQUAL, "same spec")
+    # ---------------- an UPSTREAM component cannot be hashed, every file read further down still exists
+    privs = [(k, rf["path"]) for k, pn in enumerate(spec["chain"])
+             for rf in next(c for c in spec["comps"] if c["name"] == pn)["refs"]
+             if rf["producer"] is None and rf["path"].startswith("data/only-")]
+    for k, path in r.sample(privs, min(len(privs), 2)):
+        s = copy.deepcopy(spec)
+        s["missing_data"] = [path]
+        add("H1-upstream-input-file-missing", s, NOCLAIM, NONE,
+            "%s of producer %s, %d link(s) above the target" % (path, spec["chain"][k], len(spec["chain"]) - k),
+            h_edit=True, unhashable_root=spec["chain"][k], distance=len(spec["chain"]) - k)
+    cands = []
+    for k in range(1, len(spec["chain"])):
+        up, me = spec["chain"][k - 1], spec["chain"][k]
+        mine = [rf for rf in next(c for c in spec["comps"] if c["name"] == me)["refs"] if rf["producer"] == up]
+        if not mine or not (mine[0]["path"] or mine[0]["method"] == "output"):
+            continue    # directory reference: no single file to take away
+        fn = "out.stdout" if (mine[0]["method"] == "output" and not mine[0]["path"]) else "out.txt"
+        others = False
+        for c in spec["comps"]:
+            if c["name"] == me:
+                continue
+            for rf in c["refs"]:
+                if rf["producer"] != up:
+                    continue
+                ofn = "out.stdout" if (rf["method"] == "output" and not rf["path"]) else ("out.txt" if rf["path"] else None)
+                if ofn == fn:
+                    others = True
+        if not others:
+            cands.append((k, up, me, fn))
+    if cands:
+        k, up, me, fn = r.choice(cands)
+        s = copy.deepcopy(spec)
+        s["outputs"][up].pop(fn)
+        add("H2-upstream-producer-file-missing", s, NOCLAIM, NONE,
+            "%s/%s read only by %s, %d link(s) above the target" % (up, fn, me, len(spec["chain"]) - k),
+            h_edit=True, unhashable_root=me, distance=len(spec["chain"]) - k)
     # ---------------- not named by the statement: informational only
     s = copy.deepcopy(spec)
     s["variables"]["renamed-var"] = s["variables"]["gv"]
@@ -334,7 +440,7 @@ def edits(spec: Dict[str, Any], r: random.Random) -> List[Dict[str, Any]]:
         r.shuffle(perm)          # new position j holds old reference perm[j]
         inv = {old: j for j, old in enumerate(perm)}
         tt["refs"] = [tt["refs"][o] for o in perm]
-        tt["args"] = [["ref", inv[a[1]]] if a[0] == "ref" else a for a in tt["args"]]
+        tt["args"] = [["ref", inv[a[1]]] + a[2:] if a[0] == "ref" else a for a in tt["args"]]
         add("X2-order-of-references-field", s, NOCLAIM, NOCLAIM, perm)
     # ---------------- missing input -> no strong hash
     if drefs:
